@@ -44,6 +44,7 @@ from ..constants import TrustLevel
 from ..decorators import sdproperty
 
 from ..errors import PGPDecryptionError
+from ..errors import PGPEncryptionError
 
 from ..symenc import _decrypt
 from ..symenc import _encrypt
@@ -252,6 +253,10 @@ class PKESessionKeyV3(PKESessionKey):
         return (symalg, symkey)
 
     def encrypt_sk(self, pk, symalg, symkey):
+        if len(symkey) != symalg.key_size // 8:
+            # the recipient slices key_size octets: any other length could never be decrypted
+            raise PGPEncryptionError("session key length does not match the key size of {:s}".format(symalg.name))
+
         m = bytearray(self.int_to_bytes(symalg) + symkey)
         m += self.int_to_bytes(sum(bytearray(symkey)) % 65536, 2)
 
